@@ -224,7 +224,7 @@ def main(argv=None):
         if isinstance(f["trace"], dict):
             harness_errors.append("%s: counterexample could not be realised: %s" % (rec["name"], f["trace"]))
             continue
-        trace = list(r.get("prefix", [])) + list(f["trace"])[len(r.get("prefix", [])):]
+        trace = list(f["trace"]) if r.get("kind") == "re" else list(r.get("prefix", [])) + list(f["trace"])[len(r.get("prefix", [])):]
         rep = dict(property=prop, obligation=rec["name"], kind=r.get("kind", "ch"), module=r["module"], body=r["body"], cfg=r["cfg"],
                    assertions=r["assertions"], trace=trace, detail=f.get("detail"))
         sig = json.dumps([rec["name"], trace], sort_keys=True, default=str)
